@@ -240,6 +240,8 @@ type Unit struct {
 	inlined     map[string]bool
 	lockKeys    map[string]bool
 	seqFacts    map[string]bool
+	concurrent  bool // the unit's function is declared `opt concurrent yes`
+	guardOrigin map[string]guardOrigin // value term -> mutex that guards the contents of that map
 	opaqueDefs  map[string]*opaqueDef
 	hintTags    map[string]string // property tag -> flag constant enabling the hints of that tag
 	sortSites   []*SortSite
